@@ -323,6 +323,13 @@ class Extract:
                     self.acc_init[p["hid"]] = None
                 self.env[p["hid"]] = Rat.atom("%s#%d" % (p["name"], p["hid"]))
                 return
+            if i.get("k") == "tup" and "Mut" not in p.get("mode", "") and all(t_.strip() in ("usize", "f32", "i32", "u64") for t_ in ty.strip("()").split(",")):
+                # `let pair = (a, b);` of scalars: known component-wise (so `pair.0` is a)
+                try:
+                    self.env[p["hid"]] = e1.fn_atom("tup", *[self.plain(x_) for x_ in i["xs"]])
+                except ValueError:
+                    pass
+                return
             if ty in ("usize", "f32", "i32", "u64", "bool"):
                 try:
                     reads = {}
@@ -588,6 +595,16 @@ def extract(crate, fn):
             changed = True
         if changed:
             fn = fn2
+    if any(x.get("k") == "mcall" and x.get("name") == "map" and strip(x["recv"]) is not None and strip(x["recv"]).get("k") == "struct" for x in walk(fn["body"])):
+        fn4 = _copy.deepcopy(fn)
+        if _ds.range_map_collect_to_push(fn4, crate.types):      # desugar D21, then blocks lifted out of the `push` arguments and flattened
+            for _ in range(6):
+                a_ = _ds.lift_arg_blocks(fn4, crate.types)
+                b_ = _ds.flatten_blocks(fn4)
+                c_ = _ds.move_aliases(fn4)
+                if not (a_ or b_ or c_):
+                    break
+            fn = fn4
     if any(x.get("k") == "mcall" and x.get("name") == "push" for x in walk(fn["body"])):
         fn3 = _copy.deepcopy(fn)
         if _ds.push_nests_to_index(fn3, crate.types):      # desugar D16: vectors built by one push per iteration, read in indexed form
